@@ -67,6 +67,7 @@ fn run(routine: &str, rest: &[String]) -> String {
         "formatted_duration" => c15::formatted_duration(rest),
         "bar_screen" => bar::bar_screen(rest),
         "bar_forced" => bar::bar_forced(rest),
+        "bar_after" => bar::bar_after(rest),
         "bar_frames" => bar::bar_frames(rest),
         "bar_hidden" => bar::bar_hidden(rest),
         "multi_order" => bar::multi_order(rest),
@@ -74,8 +75,12 @@ fn run(routine: &str, rest: &[String]) -> String {
         "pos_history" => public::pos_history(rest),
         "byte_formatters" => public::byte_formatters(rest),
         "time_keys" => public::time_keys(rest),
+        "term_not_tty" => public::term_not_tty(rest),
+        "spinner_ticks" => public::spinner_ticks(rest),
+        "pos_concurrent" => public::pos_concurrent(rest),
         "multi_move" => public::multi_move(rest),
         "multi_bottom" => bar::multi_bottom(rest),
+        "multi_overflow" => bar::multi_overflow(rest),
         "bar_reuse" => bar::bar_reuse(rest),
         "multi_rate" => bar::multi_rate(rest),
         "multi_removed" => bar::multi_removed(rest),
